@@ -14,11 +14,23 @@ type c20SX struct {
 	opaque func(fn *types.Func) string // same-package function modelled as an event of this kind instead of being inlined ("" = inline)
 	status *int64                      // concrete StatusCode of the response returned by Client.Do (getFromAPI world)
 	stack  []*types.Func
+	frames []c20Frame     // one per function or closure being executed (innermost last)
+	lits   []*ast.FuncLit // function literals being executed (recursion guard)
+	tick   int
+	birth  map[types.Object]int // when a variable was last declared or bound as a parameter (see changed)
 	nextID int
 	budget int
 	sep    string
 	preset map[int]c20V // root parameters bound to given values instead of symbolic inputs (finite-domain runs)
 }
+
+// c20Frame describes the function or closure whose body is being executed.
+type c20Frame struct {
+	sig    *types.Signature
+	lo, hi token.Pos
+}
+
+func (x *c20SX) frame() c20Frame { return x.frames[len(x.frames)-1] }
 
 const c20MaxStates = 20000
 
@@ -27,6 +39,15 @@ func c20NewSX(cx *c20Ctx, root *FuncInfo, opaque func(*types.Func) string) *c20S
 }
 
 func (x *c20SX) newID() int { x.nextID++; return x.nextID }
+
+// born records that variable o starts a new lifetime now (declaration, parameter binding).
+func (x *c20SX) born(o types.Object) {
+	if x.birth == nil {
+		x.birth = map[types.Object]int{}
+	}
+	x.tick++
+	x.birth[o] = x.tick
+}
 
 // input builds the symbolic value of a function input of the given type.
 func (x *c20SX) input(h *c20Hole, t types.Type) c20V {
@@ -41,6 +62,7 @@ func (x *c20SX) run() []*c20St {
 	st := c20NewSt()
 	x.bindRoot(st)
 	x.stack = []*types.Func{x.root.Obj}
+	x.frames = []c20Frame{{sig: c20Sig(x.root.Obj), lo: x.root.Decl.Pos(), hi: x.root.Decl.End()}}
 	outs := x.block(x.root.Decl.Body.List, []*c20St{st})
 	var final []*c20St
 	for _, o := range outs {
@@ -137,33 +159,18 @@ func (x *c20SX) callInline(fi *FuncInfo, call *ast.CallExpr, recv *c20V, args []
 			st.env[p] = c20Unknown("missing argument")
 		}
 	}
+	if sig.Recv() != nil {
+		x.born(sig.Recv())
+	}
+	for i := 0; i < np; i++ {
+		x.born(sig.Params().At(i))
+	}
 	x.stack = append(x.stack, fi.Obj)
+	x.frames = append(x.frames, c20Frame{sig: sig, lo: fi.Decl.Pos(), hi: fi.Decl.End()})
 	outs := x.block(fi.Decl.Body.List, []*c20St{st})
 	x.stack = x.stack[:len(x.stack)-1]
-	var res []c20EV
-	for _, o := range outs {
-		switch o.ctl {
-		case c20cRet:
-			o.ctl = c20cRun
-			v := c20V{k: c20kTuple, vs: o.ret}
-			if len(o.ret) == 1 {
-				v = o.ret[0]
-			}
-			o.ret, o.retAt = nil, nil
-			res = append(res, c20EV{o, v})
-		case c20cRun:
-			if sig.Results().Len() == 0 {
-				res = append(res, c20EV{o, c20V{k: c20kTuple}})
-			} else {
-				res = append(res, c20EV{o.abort(call, "a path reaches the end of %s without a return", fi.Name()), c20V{}})
-			}
-		case c20cCont, c20cBrk:
-			res = append(res, c20EV{o.abort(call, "break/continue outside a recognised loop in %s", fi.Name()), c20V{}})
-		default: // abort, panic
-			res = append(res, c20EV{o, c20V{}})
-		}
-	}
-	return res
+	x.frames = x.frames[:len(x.frames)-1]
+	return x.finishCall(outs, sig, call, fi.Name())
 }
 
 // assign stores v into the place denoted by lhs.
@@ -175,6 +182,9 @@ func (x *c20SX) assign(lhs ast.Expr, v c20V, st *c20St) {
 		}
 		if o := objOf(x.info, id); o != nil {
 			if _, isVar := o.(*types.Var); isVar && o.Parent() != x.cx.pk.Types.Scope() {
+				if x.info.Defs[id] != nil {
+					x.born(o)
+				}
 				st.env[o] = v
 				return
 			}
@@ -208,6 +218,9 @@ func (x *c20SX) zero(t types.Type) c20V {
 	case *types.Pointer, *types.Interface, *types.Map, *types.Chan, *types.Signature:
 		return c20V{k: c20kNil}
 	case *types.Struct:
+		if c20IsBuilderType(t) {
+			return c20V{k: c20kBytes, tag: "builder", typ: t}
+		}
 		if nt, ok := t.(*types.Named); ok {
 			// `var o osm.OSM`: a fresh empty document
 			return c20V{k: c20kObj, tag: "doc", id: x.newID(), name: nt.Obj().Name(), b: true, typ: t, fields: map[string]c20V{}}
